@@ -1075,6 +1075,9 @@ for _p in ("C20", "C21", "C22", "C23"):
 for _p in ("C20", "C21", "C23"):
     ADDENDA[_p] = ADDENDA.get(_p, "") + " A subscriber may bring a scheduler along (subscribe with a scheduler argument): the subject does not use it."
 ADDENDA["C33"] = ADDENDA.get("C33", "") + " aiorun (stand-in / thorough cross-check) also has two threads disposing two different actions at the same time."
+for _p in ("C18", "C19"):
+    ADDENDA[_p] = ADDENDA.get(_p, "") + (" What a handler still does after handing out a window / group stands behind a re-check of the subscription "
+                                         "(after-emission obligations of the ownership analysis, over this property's own files).")
 for _p, _t in ADDENDA.items():
     if _p in CHECKS:
         CHECKS[_p] = dict(CHECKS[_p], text=CHECKS[_p]["text"] + _t)
